@@ -115,8 +115,31 @@ def last_statement_programs():
     return out
 
 
+def tron_direct_cases(rng):
+    """with TRON on, a direct line that enters program lines: every entry is traced, also the second entry into the same line"""
+    out = []
+    prog = ['100 PRINT "<100>";:RETURN', '200 PRINT "<200>";:RETURN', '300 PRINT "<300>";:GOSUB 100:RETURN']
+    plans = [[100, 100], [100, 200, 100], [200, 200, 200], [300, 300], [100, 300, 100], [300, 100, 100, 200]]
+    for _ in range(6):
+        plans.append([rng.choice([100, 200, 300]) for _ in range(rng.randint(2, 5))])
+    for plan in plans:
+        direct = ":".join("GOSUB %d" % n for n in plan)
+        want = ""
+        for n in plan:
+            want += "[%d]<%d>" % (n, n)
+            if n == 300:
+                want += "[100]<100>[300]"          # ... and the return into line 300 enters it again
+        calls = ["R5000"] + [sess.E(l) for l in prog] + [sess.E("TRON"), "R5000", sess.E(direct), "R5000", sess.E("TROFF"), "R5000"]
+        out.append(Case(sess.session(calls), sig="\n".join(prog) + "\n#TRON, then: " + direct, tag="tron-direct", meta=("tron-direct", want, 0)))
+    for k in (2, 3):
+        direct = "FOR I=1 TO %d:GOSUB 100:NEXT" % k
+        calls = ["R5000"] + [sess.E(l) for l in prog] + [sess.E("TRON"), "R5000", sess.E(direct), "R5000", sess.E("TROFF"), "R5000"]
+        out.append(Case(sess.session(calls), sig="\n".join(prog) + "\n#TRON, then: " + direct, tag="tron-direct", meta=("tron-direct", "[100]<100>" * k, 0)))
+    return out
+
+
 def gen(tier, rng):
-    cases = []
+    cases = tron_direct_cases(rng)
     progs = list(CORPUS) + frame_programs() + last_statement_programs()
     n = 500 if tier == "quick" else 20000
     for _ in range(n):
@@ -127,7 +150,20 @@ def gen(tier, rng):
     return cases
 
 
-monitor = semcheck.crash_monitor
+def monitor(case, r):
+    v = semcheck.crash_monitor(case, r)
+    if v or r is None:
+        return v
+    if case.meta and case.meta[0] == "tron-direct":
+        import transcript
+        ev = transcript.split_events(r)
+        # the output of the direct line: between the second and the third prompt after the listing was typed
+        text = transcript.printed_text(ev)
+        parts = text.split("READY.\n")
+        body = parts[2] if len(parts) > 2 else ""
+        if body.strip() != case.meta[1]:
+            return "trace: %s\n  prints   %r\n  the lines entered are %r" % (case.sig, body.strip(), case.meta[1])
+    return None
 STATS = {}
 
 
